@@ -3,7 +3,7 @@
 #  (1) the patch applies to a clean scratch worktree of /repo HEAD, (2) the unedited suite passes with it,
 #  (3) the demonstration passes on /repo and fails on the patched tree.  On success copies it to /verif/seeded/<Cxx>[-tag]/.
 set -u
-ID=$1; TAG=${2:-}; SRC=/tmp/mut/$ID/out; NAME=$ID${TAG:+-$TAG}
+ID=$1; TAG=${2:-}; SRC=${MUTROOT:-/tmp/mut}/$ID/out; NAME=$ID${TAG:+-$TAG}
 DST=/verif/seeded/$NAME; WT=/tmp/seedchk_$NAME
 [ -f $SRC/patch.diff ] && [ -f $SRC/demo.py ] || { echo "missing deliverables in $SRC"; exit 2; }
 git -C /repo worktree remove --force $WT 2>/dev/null; rm -rf $WT
